@@ -16,12 +16,14 @@ variable {α : Type} [Num α]
 def OdeOK (ode newt : Nat) : Newton α → Prop
   | .done newt' _ _ _ _ _ _ _ _ ode' => ode' + 3 * newt = ode + 3 * newt' ∧ newt ≤ newt'
   | .failed newt' _ _ _ _ ode' => ode' + 3 * newt = ode + 3 * newt' ∧ newt ≤ newt'
+  | .slow newt' _ _ _ _ _ _ _ ode' => ode' + 3 * newt = ode + 3 * newt' ∧ newt ≤ newt'
   | .starved => True
 
 theorem OdeOK.step {ode newt : Nat} {r : Newton α} (h : OdeOK (ode + 3) (newt + 1) r) : OdeOK ode newt r := by
   cases r with
   | done a b c d e f g i j k => exact ⟨by have := h.1; omega, by have := h.2; omega⟩
   | failed a b c d e k => exact ⟨by have := h.1; omega, by have := h.2; omega⟩
+  | slow a b c d e f g i k => exact ⟨by have := h.1; omega, by have := h.2; omega⟩
   | starved => trivial
 
 /-- **C18 (Radau).**  Every Newton iteration that was started is counted with its three right-hand-side evaluations,
@@ -113,6 +115,7 @@ theorem pass_singular (L : Lits α) (P : Params α) (s : State α) (o : PassOrac
       · split
         · intro h; cases h
         · exact SingOK_failure L _ s _ _ rfl
+        · exact Or.inr (Or.inl rfl)
         · exact SingOK_finishStep ..
 
 /-- the landing flag leaves the Newton loop unchanged or cleared, never raised -/
@@ -233,6 +236,10 @@ theorem pass_ode (L : Lits α) (P : Params α) (s : State α) (o : PassOracle α
           exact ⟨nn, 0, by omega, by have := hN.1; simp only [cntOf] at *; omega, by simp [h2]⟩
         · rename_i heq
           rw [heq] at hN
+          rename_i nn _ _ _ _ _ _ _ oo
+          exact ⟨nn, 0, by omega, by have := hN.1; simp only [cntOf] at *; omega, by simp [cntOf, h2]⟩
+        · rename_i heq
+          rw [heq] at hN
           rename_i nn th tq dy fc hh2 hf rj ls oo
           have hf := finishStep_ode L P s o nn th tq dy fc hh2 hf ls { total := cnt.total + 1, accepted := cnt.accepted, rejected := rj, ode := oo, jac := cnt.jac, lu := cnt.lu } (if s.last then P.xend else s.x + s.h)
           unfold FinOK at hf
@@ -307,6 +314,7 @@ theorem pass_success_exact (L : Lits α) (P : Params α) (s : State α) (o : Pas
         split
         · intro h; cases h
         · exact SuccOK_failure ..
+        · trivial
         · rename_i heq
           rw [heq] at hN
           exact SuccOK_finishStep _ _ _ _ _ _ _ _ _ _ _ _ _ _ (fun hl => by simp [hN hl])
@@ -404,6 +412,7 @@ theorem pass_land (L : Lits K) (P : Params K) (s : State K) (o : PassOracle K) (
         split
         · intro h; cases h
         · exact LandOK_failure ..
+        · intro h; cases h
         · rename_i heq
           rw [heq] at hN
           exact LandOK_finishStep _ _ _ _ _ _ _ _ _ _ _ _ _ _ (fun hl => by simp [hN hl])
